@@ -33,6 +33,7 @@ def run(ctx):
         ("grapheme-labels", [97, 769, 8205, 128104, 127471, 13, 10], {0, 1, 2}, 3 if q else 4, ["G"]),
         ("types", TYPES, {0, 1, 2}, 3 if q else 4, ["D", "R", "H", "T", "K", "O"]),
         ("linebreak", [97, 13, 10, 12354], {0, 1, 2}, 4 if q else 5, ["L"]),
+        ("linebreak-lookalikes", [97, 10, 13, 11, 12, 0x85, 0x2028, 9], {0, 2}, 3 if q else 4, ["L"]),
     ]
     hcases = []
     for name, alpha, labels, maxn, filters in plans:
